@@ -24,7 +24,7 @@ PROPERTY = 'C11'
 LEVEL = 'exploration'
 RULE = ('a contiguous fragment (4-24 residues quick / 4-40 thorough, optionally crossing a chain boundary) of one of 11 test structures '
         '(with and without hydrogens, with disulfides, two chains) x a presentation change (within-residue atom permutation, '
-        'hydrogen renaming by scheme or unique random names, one of 24 exact rotations + grid translation, PYTHONHASHSEED in '
+        'hydrogen renaming by scheme or unique random names, synthetic alternate-location records, one of 24 exact rotations + grid translation, PYTHONHASHSEED in '
         '{0,1,4242}) x pipeline options (-ff martini3001/martini22/elnedyn22, -elastic with bounds, -p backbone, -ss, -dssp, -cys, '
         '-nt, -noscfix); both runs go through the real entry() and the written files are compared; non-trivial = the change moved '
         'at least one heavy atom in the file or renamed a hydrogen, and the fragment contains a residue with a symmetric side '
@@ -109,7 +109,22 @@ def fragment(case):
     nres = len(src['residues'])
     length = min(case['length'], nres)
     start = case['start'] % (nres - length + 1)
-    return src, src['residues'][start:start + length]
+    residues = src['residues'][start:start + length]
+    picks = case.get('altloc') or []
+    if picks:
+        # give some atoms an alternate location B (conformer A keeps the coordinates): both presentations contain both
+        # records, the within-residue permutation decides which one comes first in the file
+        residues = [(key, list(lines)) for key, lines in residues]
+        for ridx, aidx in picks:
+            key, lines = residues[ridx % len(residues)]
+            i = aidx % len(lines)
+            line = lines[i]
+            if line[16] != ' ':
+                continue
+            x = float(line[30:38]) + 1.5
+            lines[i] = line[:16] + 'A' + line[17:]
+            lines.insert(i + 1, line[:16] + 'B' + line[17:30] + '%8.3f' % x + line[38:])
+    return src, residues
 
 
 def is_h(line):
@@ -425,6 +440,8 @@ def run(case):
         classes.append('dssp')
     if len(set(key[0] for key, _ in residues)) > 1:
         classes.append('two-chains')
+    if any(line[16] == 'B' for _, lines in residues for line in lines):
+        classes.append('alternate-locations')
     if has_ss:
         classes.append('two-cysteines')
     n_inter = sum(len(l) for mt in out_a['moltypes'].values() for l in mt['inter'].values())
@@ -457,6 +474,7 @@ def strategy(tier):
     return st.fixed_dictionaries({
         'source': st.integers(0, len(SOURCES) - 1), 'start': st.integers(0, 400), 'length': st.integers(4, maxlen),
         'transform': transform, 'options': options,
+        'altloc': st.one_of(st.just([]), st.just([]), st.lists(st.tuples(st.integers(0, 40), st.integers(0, 30)).map(list), min_size=1, max_size=3)),
     })
 
 
